@@ -16,13 +16,14 @@ struct SolverCfg {
     double reduction = 1.0;
     int strategy = 0; // 0 take, 1 give
     int cache_coef = 1, cache_geom = 1;
+    int via_cli = 0; // 1: every option reaches the object through setParameters(argc, argv), as src/main.cpp does
 
     static const std::vector<std::string>& intKeys()
     {
         static const std::vector<std::string> k = {"geometry", "problem", "alpha", "beta", "nr_exp", "ntheta_exp", "aniso", "div",
                                                     "dirbc", "fmg", "fmg_its", "fmg_cycle", "extrapolation", "max_levels", "pre",
                                                     "post", "cycle", "max_its", "norm", "threads", "strategy", "cache_coef",
-                                                    "cache_geom"};
+                                                    "cache_geom", "via_cli"};
         return k;
     }
     int* iptr(const std::string& k)
@@ -50,6 +51,7 @@ struct SolverCfg {
         if (k == "strategy") return &strategy;
         if (k == "cache_coef") return &cache_coef;
         if (k == "cache_geom") return &cache_geom;
+        if (k == "via_cli") return &via_cli;
         return nullptr;
     }
     static const std::vector<std::string>& dblKeys()
@@ -177,9 +179,31 @@ struct SolverCfg {
         if (cache_coef != prev.cache_coef) s.cacheDensityProfileCoefficients(cache_coef != 0);
         if (cache_geom != prev.cache_geom) s.cacheDomainGeometry(cache_geom != 0);
     }
+    // the whole configuration as a command line (option names of the shipped parser)
+    std::vector<std::string> argvAll() const
+    {
+        auto I = [](long v) { return std::to_string(v); };
+        return {"gmgpolar", "--verbose", "0", "--paraview", "0", "--geometry", I(geometry), "--problem", I(problem), "--alpha_coeff", I(alpha),
+                "--beta_coeff", I(beta), "--kappa_eps", KVnum(kappa_eps), "--delta_e", KVnum(delta_e), "--alpha_jump", KVnum(alpha_jump),
+                "--Rmax", KVnum(Rmax), "--R0", KVnum(R0), "--nr_exp", I(nr_exp), "--ntheta_exp", I(ntheta_exp), "--anisotropic_factor", I(aniso),
+                "--divideBy2", I(div), "--write_grid_file", "0", "--load_grid_file", "0", "--DirBC_Interior", I(dirbc != 0), "--FMG", I(fmg != 0),
+                "--FMG_iterations", I(fmg_its), "--FMG_cycle", I(fmg_cycle), "--extrapolation", I(extrapolation), "--maxLevels", I(max_levels),
+                "--preSmoothingSteps", I(pre), "--postSmoothingSteps", I(post), "--multigridCycle", I(cycle), "--maxIterations", I(max_its),
+                "--residualNormType", I(norm), "--absoluteTolerance", KVnum(abs_tol), "--relativeTolerance", KVnum(rel_tol),
+                "--maxOpenMPThreads", I(std::max(threads, 1)), "--threadReductionFactor", KVnum(reduction), "--stencilDistributionMethod", I(strategy),
+                "--cacheDensityProfileCoefficients", I(cache_coef != 0), "--cacheDomainGeometry", I(cache_geom != 0)};
+    }
     std::unique_ptr<GMGPolar> make() const
     {
         auto s = std::make_unique<GMGPolar>();
+        if (via_cli) {
+            std::vector<std::string> a = argvAll();
+            std::vector<char*> argv;
+            for (auto& x : a)
+                argv.push_back(const_cast<char*>(x.c_str()));
+            s->setParameters((int)argv.size(), argv.data());
+            return s;
+        }
         select(*s);
         applyOptions(*s);
         return s;
